@@ -88,6 +88,11 @@ def _view(r):
     return r
 
 
+def _same(got, want):
+    """values travel from the forked child as JSON (dates as text, NaN as NaN): compare canonical JSON text"""
+    return core.canon(got) == core.canon(want)
+
+
 def _expected(scn, fname):
     vd = scn["value"]
     if "exc" in vd:
@@ -147,7 +152,7 @@ def run_point(scn, pt, scratch, second=None):
                     if res.get("exc") != want["exc"]:
                         out.violation("%s: call %s gave %r during the fault, expected exception %s" % (label, res["fn"], res, want["exc"]),
                                       symptom="faulted-call-wrong", variant=pt["variant"], on=pt["rel_kind"])
-                elif res.get("ok") != want["ok"] or "exc" in res:
+                elif not _same(res.get("ok"), want["ok"]) or "exc" in res:
                     out.violation("%s: call %s gave %r during the reported I/O error, expected %r" % (label, res["fn"], {k: res[k] for k in res if k != "runs"}, want["ok"]),
                                   symptom="faulted-call-wrong", variant=pt["variant"], on=pt["rel_kind"])
         # afterwards: fresh process, no faults, three calls of every function
@@ -173,7 +178,7 @@ def run_point(scn, pt, scratch, second=None):
                 elif "exc" in res:
                     out.violation("after %s: call %d of %s raised %s: %s" % (label, i + 1, fname, res["exc"], res["msg"]),
                                   symptom="later-call-raised", variant=pt["variant"], on=pt["rel_kind"], exc=res["exc"])
-                elif res.get("ok") != want["ok"]:
+                elif not _same(res.get("ok"), want["ok"]):
                     out.violation("after %s: call %d of %s returned %r, expected %r" % (label, i + 1, fname, res.get("ok"), want["ok"]),
                                   symptom="later-call-wrong", variant=pt["variant"], on=pt["rel_kind"])
                 if i >= 1 and res["runs"]:
@@ -246,6 +251,6 @@ def run_shard(ctx):
         stats.extra["canonical_scenarios"] = len(CANONICAL)
         stats.extra["canonical_fault_points"] = npts
     stats.extra["canonical_enumeration_complete"] = 1 if complete else 0
-    core.hyp_search(scenario_strategy(), lambda c: execute(c, ctx.scratch), stats, max_examples=10 if thorough else 1,
+    core.hyp_search(scenario_strategy(), lambda c: execute(c, ctx.scratch), stats, max_examples=10 if thorough else 2,
                     seed=core.hash64(ctx.seed, ID, ctx.shard), findings=ctx.findings, shrink=False, deadline_s=dl(1.0))
     return stats
